@@ -4,7 +4,10 @@ code with txtorcon.  Used by C14, C15 and C17.
 
 API (everything else is inherited from vf.faketor.core.FakeTor)
 ---------------------------------------------------------------
-tor = OnionTor(non_anonymous_mode=False, best="RSA1024", auto_upload=0)
+tor = OnionTor(non_anonymous_mode=False, best="RSA1024", auto_upload=0, send_key_despite_discard=False)
+  send_key_despite_discard=True   OUT-OF-SPEC server (a Tor that ignores / predates DiscardPK, a relaying
+                        controller): the ADD_ONION reply carries PrivateKey= although DiscardPK was sent.
+                        Only for defensive workloads, which must tag their cases as out-of-spec-server input.
   tor.onions            {service_id: OnionRecord}  live ephemeral services (ADD_ONION), insertion order
   tor.add_onion_log     [dict(rest=, parsed=AddOnion|None, code=, text=, service_id=|None)] one per ADD_ONION line
   tor.del_onion_log     [dict(rest=, code=, service_id=|None)]                              one per DEL_ONION line
@@ -264,6 +267,8 @@ class OnionTor(FakeTor):
         self.best = kw.pop("best", "RSA1024")
         self.auto_upload = kw.pop("auto_upload", 0)
         self.allow_relative_dirs = kw.pop("allow_relative_dirs", False)
+        # OUT OF SPEC (defensive workloads only): answer with PrivateKey= although DiscardPK was given
+        self.send_key_despite_discard = kw.pop("send_key_despite_discard", False)
         if kw.get("conf") is None:
             kw["conf"] = default_conf()
         FakeTor.__init__(self, *a, **kw)
@@ -387,7 +392,7 @@ class OnionTor(FakeTor):
             auths[name] = blob
         rec = OnionRecord(key, generated, a, auths)
         self.onions[rec.service_id] = rec
-        send_key = generated and not rec.discard
+        send_key = generated and (not rec.discard or self.send_key_despite_discard)
         rec.key_sent = send_key
         ent["code"], ent["text"], ent["service_id"] = 250, "OK", rec.service_id
         self._announce.append(rec.service_id)
